@@ -37,6 +37,8 @@ import (
 )
 
 type sumFn struct {
+	nonneg  bool // summand is an indicator (count): emit the non-negativity axiom
+	keyTyp  types.Type // Go type of the index (nil if unknown, e.g. `visited`)
 	idx     int
 	tmpl    string
 	ks, rs  string
@@ -52,17 +54,22 @@ type sumApp struct {
 	outer []Term
 }
 
+type sumKey struct {
+	t   Term
+	typ types.Type // Go type of the key where known
+}
+
 type sumState struct {
 	fns  map[string]*sumFn
 	list []*sumFn
 	apps []sumApp
 	seen map[string]bool
-	keys map[string][]Term
+	keys map[string][]sumKey
 }
 
 func (u *Unit) sums() *sumState {
 	if u.sumSt == nil {
-		u.sumSt = &sumState{fns: map[string]*sumFn{}, seen: map[string]bool{}, keys: map[string][]Term{}}
+		u.sumSt = &sumState{fns: map[string]*sumFn{}, seen: map[string]bool{}, keys: map[string][]sumKey{}}
 	}
 	return u.sumSt
 }
@@ -189,7 +196,8 @@ func (e *SpecEnv) evalSum(n *SQuant) Value {
 	ss := u.sums()
 	fn := ss.fns[key]
 	if fn == nil {
-		fn = &sumFn{idx: len(ss.list) + 1, tmpl: n.String(), ks: ks, rs: rs, isRange: isRange, outerS: outerSorts}
+		fn = &sumFn{idx: len(ss.list) + 1, tmpl: n.String(), ks: ks, rs: rs, isRange: isRange, outerS: outerSorts, nonneg: n.Kind == "count"}
+		fn.keyTyp = keyTyp
 		fn.fsym = fmt.Sprintf("sumF_%d", fn.idx)
 		params := []string{fmt.Sprintf("(%s %s)", vname, ks)}
 		for _, o := range outers {
@@ -254,7 +262,9 @@ func (e *SpecEnv) evalSum(n *SQuant) Value {
 			a := sumApp{fn, setT, outerTerms}
 			ss.apps = append(ss.apps, a)
 			for _, k := range ss.keys[ks] {
-				u.sumSplit(a, k)
+				if keyTypesCompatible(fn.keyTyp, k.typ) {
+					u.sumSplit(a, k.t)
+				}
 			}
 		}
 	}
@@ -280,14 +290,20 @@ func (u *Unit) sumAxioms(fn *sumFn) {
 		return Term{"(forall (" + vars + ") " + body + ")", SBool}
 	}
 	if fn.isRange {
-		u.ctx.AssertAlways(all("(lo Int) (hi Int)", fmt.Sprintf("(! (=> (forall ((i Int)) (=> (and (<= lo i) (< i hi)) (>= (%s i%s) %s))) (>= (%s lo hi%s) %s)) :pattern ((%s lo hi%s)))", fn.fsym, pa, z, fn.ssym, pa, z, fn.ssym, pa)), "sum-range-nonneg")
+		if fn.nonneg {
+			u.ctx.AssertAlways(all("(lo Int) (hi Int)", fmt.Sprintf("(! (=> (forall ((i Int)) (=> (and (<= lo i) (< i hi)) (>= (%s i%s) %s))) (>= (%s lo hi%s) %s)) :pattern ((%s lo hi%s)))", fn.fsym, pa, z, fn.ssym, pa, z, fn.ssym, pa)), "sum-range-nonneg")
+		}
 		return
 	}
 	as := ArrSort(fn.ks, SBool)
 	u.ctx.AssertAlways(all("", fmt.Sprintf("(= (%s ((as const %s) false)%s) %s)", fn.ssym, as, pa, z)), "sum-empty")
 	u.ctx.AssertAlways(all(fmt.Sprintf("(A %s) (k %s)", as, fn.ks), fmt.Sprintf("(! (= (%s (store A k true)%s) (+ (%s A%s) (ite (select A k) %s (%s k%s)))) :pattern ((%s (store A k true)%s)))", fn.ssym, pa, fn.ssym, pa, z, fn.fsym, pa, fn.ssym, pa)), "sum-insert")
 	u.ctx.AssertAlways(all(fmt.Sprintf("(A %s) (k %s)", as, fn.ks), fmt.Sprintf("(! (= (%s (store A k false)%s) (- (%s A%s) (ite (select A k) (%s k%s) %s))) :pattern ((%s (store A k false)%s)))", fn.ssym, pa, fn.ssym, pa, fn.fsym, pa, z, fn.ssym, pa)), "sum-remove")
-	u.ctx.AssertAlways(all(fmt.Sprintf("(A %s)", as), fmt.Sprintf("(! (=> (forall ((k %s)) (=> (select A k) (>= (%s k%s) %s))) (>= (%s A%s) %s)) :pattern ((%s A%s)))", fn.ks, fn.fsym, pa, z, fn.ssym, pa, z, fn.ssym, pa)), "sum-nonneg")
+	if fn.nonneg {
+		// counts only: for a general summand the axiom fired for every sum term and its nested forall re-triggered the
+		// unit's `forall k in m` invariants (measured 52 s -> 2 s on a C09 conservation obligation)
+		u.ctx.AssertAlways(all(fmt.Sprintf("(A %s)", as), fmt.Sprintf("(! (=> (forall ((k %s)) (=> (select A k) (>= (%s k%s) %s))) (>= (%s A%s) %s)) :pattern ((%s A%s)))", fn.ks, fn.fsym, pa, z, fn.ssym, pa, z, fn.ssym, pa)), "sum-nonneg")
+	}
 }
 
 // sumCongruence: two summands from the same source expression that agree pointwise on the index set have the same sum.
@@ -316,24 +332,34 @@ func (u *Unit) sumSplit(a sumApp, k Term) {
 	u.ctx.AssertAlways(Eq(rest, Arith("-", whole, Ite(Select(a.set, k), fAt, zeroOf(fn.rs)))), "sum-split")
 }
 
-// noteSumKey registers a map key the unit works with: every sum over a key set of that sort is split at it.
-func (u *Unit) noteSumKey(ks string, k Term) {
+// noteSumKey registers a map key the unit works with: every sum over a key set of that sort (and, where both are
+// known, of that Go key type: a ResourceName key is no split point of a sum over QueueIDs) is split at it.
+func (u *Unit) noteSumKey(ks string, k Term) { u.noteSumKeyT(ks, k, nil) }
+
+func (u *Unit) noteSumKeyT(ks string, k Term, typ types.Type) {
 	if u.ctx.inQuant > 0 || strings.Contains(k.S, "!q") {
 		return
 	}
 	ss := u.sums()
 	for _, o := range ss.keys[ks] {
-		if o.S == k.S {
+		if o.t.S == k.S {
 			return
 		}
 	}
-	if len(ss.keys[ks]) >= 8 {
+	if len(ss.keys[ks]) >= 12 {
 		return
 	}
-	ss.keys[ks] = append(ss.keys[ks], k)
+	ss.keys[ks] = append(ss.keys[ks], sumKey{k, typ})
 	for _, a := range ss.apps {
-		if a.fn.ks == ks {
+		if a.fn.ks == ks && keyTypesCompatible(a.fn.keyTyp, typ) {
 			u.sumSplit(a, k)
 		}
 	}
+}
+
+func keyTypesCompatible(a, b types.Type) bool {
+	if a == nil || b == nil {
+		return true
+	}
+	return types.Identical(a, b)
 }
